@@ -238,7 +238,12 @@ def run(prop, tier, seed, replay, obligations_extra=()):
 
     reported = set()
     for sc in fails[:4]:
-        shrunk = pk.ddmin(list(sc.ops), failing, budget=150)
+        # (a scenario that ends in a harness timeout — work left behind without a job — costs 20 s per replay: it is
+        # cut after the op it stopped at and shrunk with a small budget)
+        ops0 = list(sc.ops)
+        if sc.error:
+            ops0 = ops0[:len(sc.lines) + 1]
+        shrunk = pk.ddmin(ops0, failing, budget=150 if not sc.error else 14)
         s2 = run_impl(binpath, Scenario("shrunk", shrunk))
         comp = complaints_for(s2, prop)
         k = classify(prop, shrunk, comp, s2, known)
